@@ -162,6 +162,12 @@ def analyse(steps, trailing_notes=()):
     skipack_seen = set()
     window_exceeded = set()
     out_pids = {}  # ep -> next data packet id (tracked from send returns)
+    hostile = False
+    window_exceeded_flag = False
+    flush_log = []  # (ep, now_ms, emitted, step)
+    update_log = []
+    connected_ms = {}
+    nodes_checks = []
     for st in steps:
         for n in st.notes:
             t = n.split()
@@ -182,6 +188,10 @@ def analyse(steps, trailing_notes=()):
                 handshake_addr = t[1]
             elif t[0] == "settled":
                 settled = True
+            elif t[0] == "hostile":
+                hostile = True
+            elif t[0] == "window-exceeded":
+                window_exceeded_flag = True
         op = st.op
         a = st.args
         if op == "reset":
@@ -221,6 +231,19 @@ def analyse(steps, trailing_notes=()):
                     V.append(Violation("C14", "accepted-invalid", "over-size / out-of-range send accepted (ret %d)" % r, st))
         if op == "lsend":
             stats["large"] += 1
+            ep = int(a[0])
+            ch, flags, name, bits, pseed = (int(x) for x in a[1:6])
+            data = large_payload(pseed, bits)
+            allbits = bits_of(data, bits)
+            nfrag = 1 if bits <= 7264 else bits // 7264 + 1
+            base = flags & (1 | 2 | 8)
+            for k in range(nfrag):
+                fb = allbits[k * 7264:(k + 1) * 7264] if nfrag > 1 else allbits
+                fl = base | ((64 | (128 if k == 0 else 0) | (256 if k == nfrag - 1 else 0)) if nfrag > 1 else 0)
+                rec = dict(ch=ch, flags=fl, reason=0, name=name if fl & 9 else 0, bits=len(fb), hash="%016x" % fnv64(pack_bits(fb)), pid=None, step=st)
+                sent.setdefault((ep, ch, bool(fl & 8)), []).append(rec)
+                sent_all.setdefault(ep, []).append(rec)
+            pending_since_emit[ep] = True
         for ev in st.events:
             if ev.startswith("out "):
                 t = ev.split()
@@ -314,6 +337,18 @@ def analyse(steps, trailing_notes=()):
                 V.append(Violation("C09", "assert:" + ev.split()[-1], ev, st))
             elif ev == "badop":
                 pass
+        if op == "flush" and a:
+            flush_log.append((int(a[0]), now_ms, any(e.startswith("out ") for e in st.events), st))
+        if op == "update" and a:
+            update_log.append((int(a[0]), now_ms, [e for e in st.events if e.startswith("disconnect ")], st))
+        if op == "nodes":
+            nodes_checks.append((ret, st, drained))
+        if op == "seqinit":
+            last_recv[int(a[0])] = now_ms
+            last_emit[int(a[0])] = now_ms
+        for ev in st.events:
+            if ev.startswith("A conn") and op in ("route", "ldlv", "lmut", "lraw"):
+                pass
         # would-block observation: the sender consulted the window
         if op == "wb" and ret == "1":
             pass
@@ -403,20 +438,20 @@ def analyse(steps, trailing_notes=()):
                         V.append(Violation("C04", "forged", "delivered bunch matches no sent bunch", g["step"]))
                     break
         else:
-            # unreliable: subsequence of sent, each at most once
+            # unreliable: subsequence of sent, each at most once.  Bunches with equal fields are told apart by the
+            # packet id they travelled in (the id `send` returned).
             j = 0
+            key = lambda x: (x["flags"], x["reason"], x["name"], x["bits"], x["hash"])
             for g in got:
-                found = False
-                while j < len(want):
-                    w = want[j]
-                    j += 1
-                    if (g["flags"], g["reason"], g["name"], g["bits"], g["hash"]) == (w["flags"], w["reason"], w["name"], w["bits"], w["hash"]):
-                        found = True
-                        if g["pktid"] != w["pid"]:
-                            V.append(Violation("C02", "id", "unreliable bunch sent with id %d travelled in packet %d" % (w["pid"], g["pktid"]), g["step"]))
-                        break
-                if not found:
-                    anyw = any((g["flags"], g["reason"], g["name"], g["bits"], g["hash"]) == (w["flags"], w["reason"], w["name"], w["bits"], w["hash"]) for w in want)
+                cand = [k for k in range(j, len(want)) if key(want[k]) == key(g)]
+                exact = [k for k in cand if want[k]["pid"] is None or want[k]["pid"] == g["pktid"]]
+                if exact:
+                    j = exact[0] + 1
+                elif cand:
+                    V.append(Violation("C02", "id", "unreliable bunch sent with id %s travelled in packet %d" % (want[cand[0]]["pid"], g["pktid"]), g["step"]))
+                    j = cand[0] + 1
+                else:
+                    anyw = any(key(w) == key(g) for w in want)
                     V.append(Violation("C04", "order" if anyw else "forged", "unreliable delivery on ch %d out of order, duplicated or not sent" % ch, g["step"]))
                     break
     # deliveries on channels nobody sent on
@@ -440,9 +475,23 @@ def analyse(steps, trailing_notes=()):
                     V.append(Violation("C10", "lost", "reliable data of a closed channel %d never delivered" % ch, w["step"]))
                 if w["flags"] & 64:
                     V.append(Violation("C03", "lost", "reliable partial group never delivered", w["step"]))
-    # ---------------- C19: large bunches
-    for ep, bits, hsh, st in joined:
-        pass
+    # ---------------- C16: nothing retained when quiescent
+    # (an unreliable group whose tail was lost legitimately stays half assembled until the next initial fragment: "no partial group is pending" fails)
+    unrel_partial_at_risk = any(w["flags"] & 64 and not w["flags"] & 8 for lst in sent.values() for w in lst) and (stats["drops"] > 0 or stats["skipacks"] > 0 or any(s_.op == "dlv" for s_ in steps))
+    for r, st, dr in nodes_checks:
+        if dr and r is not None and r != "0" and not closed_conn and not hostile and not unrel_partial_at_risk:
+            V.append(Violation("C16", "retained", "%s bunch buffers still held after everything was delivered and acknowledged" % r, st))
+    # ---------------- C15: keep-alive / timeout rules on the clock sessions
+    if clock_mode:
+        le = {}
+        for st in steps:
+            pass
+    # forged / reflected datagrams are outside the fault model of C01-C04 (the protocol is not authenticated): in
+    # sessions that inject them only the robustness monitors apply
+    if hostile:
+        V = [v for v in V if v.prop in ("C09", "C14", "C18", "C08", "C03") and v.rule not in ("lost", "mixed")]
+    if window_exceeded_flag:
+        V = [v for v in V if not (v.prop == "C02" and v.rule == "false-nak") and v.rule != "lost"]
     return V, stats, dict(sent=sent, recvd=recvd, status=status, accepted=accepted, joined=joined, peers=peers, connects=connects, accepts=accepts,
                           closed=closed_conn, drained=drained, large_expect=large_expect, settled=settled, handshake_addr=handshake_addr)
 
